@@ -210,11 +210,17 @@ impl<F: PathFetcher> PathSet<F> {
 
                 let exit_reason = maintain.await;
 
+                #[cfg(anapaya_scion_sdk_verif)]
+                crate::path::manager::verif_sync::event("exiting", &self.shared, exit_reason);
+                #[cfg(anapaya_scion_sdk_verif)]
+                crate::path::manager::verif_sync::yield_point("exit.before_remove");
                 // If manager still exists, drop the PathSet entry
                 if let Some(mgr) = self.manager.upgrade() {
                     mgr.stop_managing_paths(self.src, self.dst);
                 }
 
+                #[cfg(anapaya_scion_sdk_verif)]
+                crate::path::manager::verif_sync::yield_point("exit.before_notify");
                 // Ensure no waiting tasks remain
                 let mut sync_guard = self.shared.sync.lock().unwrap();
                 sync_guard.ongoing_start = None;
@@ -225,9 +231,13 @@ impl<F: PathFetcher> PathSet<F> {
                 sync_guard.current_error = Some(Arc::new(PathFetchError::InternalError(
                     format!("PathSet task exited: {exit_reason}").into(),
                 )));
+                #[cfg(anapaya_scion_sdk_verif)]
+                crate::path::manager::verif_sync::sync_event("exit_notify", &self.shared, &sync_guard);
 
                 // Clear active path
                 self.shared.active_path.store(None);
+                #[cfg(anapaya_scion_sdk_verif)]
+                crate::path::manager::verif_sync::sync_event("worker_exit", &self.shared, &sync_guard);
 
                 tracing::info!(exit_reason, "Managed paths task exiting");
             }
@@ -402,6 +412,8 @@ impl<F: PathFetcher> PathSet<F> {
             }
 
             notify_guard.ongoing_start = Some(now);
+            #[cfg(anapaya_scion_sdk_verif)]
+            crate::path::manager::verif_sync::sync_event("fetch_start", &self.shared, &notify_guard);
         }
 
         let path_fetch = async {
@@ -469,12 +481,16 @@ impl<F: PathFetcher> PathSet<F> {
         self.rerank(now, manager);
         self.maybe_update_active_path(now, manager);
 
+        #[cfg(anapaya_scion_sdk_verif)]
+        crate::path::manager::verif_sync::yield_point("fetch.before_finish");
         // Set update state
         {
             let mut notify_guard = self.shared.sync.lock().unwrap();
             notify_guard.ongoing_start = None;
             notify_guard.initialized = true;
             notify_guard.completed_notify.notify_waiters();
+            #[cfg(anapaya_scion_sdk_verif)]
+            crate::path::manager::verif_sync::sync_event("fetch_done", &self.shared, &notify_guard);
         }
 
         tracing::debug!("Completed path refetch and update");
@@ -923,6 +939,8 @@ impl PathSetHandle {
             }
         }
 
+        #[cfg(anapaya_scion_sdk_verif)]
+        crate::path::manager::verif_sync::yield_point("handle.after_load");
         self.await_ongoing_update().await;
 
         self.shared.active_path.load()
@@ -932,6 +950,8 @@ impl PathSetHandle {
     pub async fn await_ongoing_update(&self) {
         let finish_notification = {
             let notify_guard = self.shared.sync.lock().unwrap();
+            #[cfg(anapaya_scion_sdk_verif)]
+            crate::path::manager::verif_sync::sync_event("caller_check", &self.shared, &notify_guard);
 
             // No ongoing update
             if notify_guard.ongoing_start.is_none() && notify_guard.initialized {
@@ -940,8 +960,12 @@ impl PathSetHandle {
 
             notify_guard.completed_notify.clone().notified_owned()
         };
+        #[cfg(anapaya_scion_sdk_verif)]
+        crate::path::manager::verif_sync::yield_point("await.registered");
 
         finish_notification.await;
+        #[cfg(anapaya_scion_sdk_verif)]
+        crate::path::manager::verif_sync::event("caller_woken", &self.shared, "");
     }
 
     /// Returns the current fetch error, if any
